@@ -14,6 +14,11 @@
 (*          a for-in variable (elements, values, keys, characters, index),   *)
 (*          a parameter, a reassigned variable, an indexed member: every     *)
 (*          evaluation yields its own cell's result                          *)
+(*   spell  the NON-FINITE numeric strings: every spelling ([sign] inf,      *)
+(*          [sign] infinity, nan, every letter case) and strings that are    *)
+(*          nearly one, in every numeric context (each arithmetic and        *)
+(*          comparison operator on either side against partners of several   *)
+(*          kinds, the unary operators, ++ and --)                           *)
 EXTENDS JqValue
 
 S(str) == VStr(Chars(str))
@@ -22,7 +27,7 @@ S(str) == VStr(Chars(str))
 Numbers == <<Zero, NegZero, I(1), I(-1), I(2), I(3), I(7), Num(1, 2, 0), Num(5, 2, 0), Num(-7, 2, 0),
              Num(1, 1, 53), Num(1, 1, -20), Num(1, 1, 70)>>
 Strings == <<S(""), S("0"), S("5"), S("-3"), S("2.5"), S("1e2"), S("10"), S("9"), S(" 1"), S("1 "), S("abc"), S("5x"),
-             VStr(<<"C3", "A9">>)>>
+             VStr(<<"C3", "A9">>), S("inf"), S("-Infinity"), S("NaN")>>
 Others == <<VBool(TRUE), VBool(FALSE), VNull, VUnset, VArr(0), VArr(1), VObj(0), VObj(1),
             VRegex(Chars("ab")), VRegex(Chars("x")), VFn>>
 U == Numbers \o Strings \o Others
@@ -44,7 +49,8 @@ IsNames == <<"number", "string", "bool", "array", "object", "regex", "function",
 IsOperands == U \o <<VNative>>
 
 \* ---- composed expressions (family "nest"): the operands of the two-operator trees
-CONSTANTS Fams,             \* the vector families to enumerate
+CONSTANTS SpellMasks,       \* family "spell": the letter-case patterns (bit i set = letter i in upper case)
+          Fams,             \* the vector families to enumerate
           NestN,            \* size of the reduced universe of the binary-in-binary trees
           SiteShift, SiteStride   \* the order in which a repeated site sees its operands (any shift; a stride coprime to every length)
 UCAll == <<I(2), S("5"), S("abc"), VNull, VUnset, VBool(TRUE), Zero, VArr(1), Num(-7, 2, 0)>>
@@ -101,7 +107,7 @@ SiteCellsFrom(o, side, fixed, i) == IF i > NU THEN <<>> ELSE <<SiteCell(o, side,
 RECURSIVE USiteCellsFrom(_, _)
 USiteCellsFrom(o, i) == IF i > NU THEN <<>> ELSE <<UnOp(o, U[i])>> \o USiteCellsFrom(o, i + 1)
 SiteCells(o, side, fixed) == SiteCellsFrom(o, side, fixed, 1)                     \* (an explicit tuple: every cell is computed once)
-CellFixed(res) == ~res.ok \/ res.v.k # "unfixed"
+CellFixed(res) == ~res.ok \/ res.v.k \notin {"unfixed", "okopen"}
 \* the elements whose cell is a value, in run order, then (when there is one) ONE element whose cell is a runtime error.
 \* Keys and indexes come in an order that is not ours to choose: there the run is the given order up to
 \* the first runtime error (and nothing when a cell is not fixed by the statement).
@@ -122,6 +128,28 @@ SiteRun(cells, seq) ==
   ELSE IF ~cells[Head(seq)].ok THEN [out |-> <<>>, err |-> TRUE]
   ELSE LET rest == SiteRun(cells, Tail(seq)) IN [out |-> <<cells[Head(seq)].v>> \o rest.out, err |-> rest.err]
 
+\* ---- the non-finite numeric strings (family "spell").  A spelling is <<sign, word, mask>>: the word
+\* in the letter case the mask says, after the sign; a near miss is a string one edit away from a spelling.
+\* ("+nan" and "-nan" are spellings of this enumeration and are NOT numeric: NaN takes no sign.)
+SpellWords == <<<<Chars("inf"), Chars("INF")>>, <<Chars("infinity"), Chars("INFINITY")>>, <<Chars("nan"), Chars("NAN")>>>>
+SpellSigns == <<<<>>, <<"+">>, <<"-">>>>
+Bit(m, i) == (m \div Pow(2, i - 1)) % 2 = 1
+Cased(w, m) == [i \in 1..Len(w[1]) |-> IF Bit(m, i) THEN w[2][i] ELSE w[1][i]]
+NearMisses == <<"in", "infi", "infin", "infinit", "infinityy", "infx", "inf1", "1inf", "na", "nann", "nan0", "i", "n", "nf", "an",
+                " inf", "inf ", "in f", "++inf", "+-inf", "inf+", "infinity-", ".inf", "inf.", "infe1", "einf", "nane1", "inff", "innf", "nnan">>
+SpellIds == {<<sg, w, m % Pow(2, Len(SpellWords[w][1]))>> : sg \in 1..3, w \in 1..3, m \in SpellMasks} \cup {<<0, i, 0>> : i \in 1..Len(NearMisses)}
+SpellStr(id) == IF id[1] = 0 THEN Chars(NearMisses[id[2]]) ELSE SpellSigns[id[1]] \o Cased(SpellWords[id[2]], id[3])
+\* the contexts: a binary operator with the spelling on one side and a partner on the other, a unary operator, ++ / --
+SpellPartners == <<I(2), Zero, S("5"), VNull, VBool(TRUE), S("inf")>>
+SpellCtxs == {<<"bin", o, side, p>> : o \in (ArithOps \cup CmpOps), side \in {1, 2}, p \in 1..Len(SpellPartners)}
+             \cup {<<"un", o, 0, 0>> : o \in UnOps} \cup {<<"inc", o, pre, 0>> : o \in {"++", "--"}, pre \in {0, 1}}
+\* an independent description of what a spelling denotes: by its lower-case form
+SpellValue(s) ==
+  CASE Lower(s) \in {Chars("inf"), Chars("+inf"), Chars("infinity"), Chars("+infinity")} -> PosInf
+    [] Lower(s) \in {Chars("-inf"), Chars("-infinity")} -> NegInf
+    [] Lower(s) = Chars("nan") -> NaN
+    [] OTHER -> Zero
+
 \* ---- enumeration: Init picks family, operator and left operand, Next the right one
 VARIABLES fam, op, li, ri, done
 vars == <<fam, op, li, ri, done>>
@@ -135,6 +163,7 @@ Init ==
      \/ fam = "nest" /\ op \in NestHeads /\ li \in 1..(IF op[1] \in {"ub", "uu"} THEN NU ELSE NestN)
      \/ fam = "site" /\ op \in BinOps /\ li \in 1..NU
      \/ fam = "usite" /\ op \in UnOps /\ li = 1
+     \/ fam = "spell" /\ op = "spell" /\ li \in SpellIds
   /\ fam \in Fams
 Next ==
   /\ ~done /\ done' = TRUE /\ UNCHANGED <<fam, op, li>>
@@ -146,6 +175,7 @@ Next ==
        [] fam = "nest" -> ri' \in (CASE op[1] = "ub" -> 1..NU [] op[1] = "uu" -> {0} [] OTHER -> (1..NestN) \X (1..NestN))
        [] fam = "site" -> ri' \in (IF li = 1 THEN {1, 2, 3} ELSE {1, 2})                                \* the side
        [] fam = "usite" -> ri' = 0
+       [] fam = "spell" -> ri' \in SpellCtxs
 
 \* ---- deviations (open findings): the cells a known defect explains
 \* F6 zero-dividend: `0 / 5` and `0 % 5` are refused as divide by zero
@@ -194,6 +224,17 @@ Vec == done =>
                runs |-> [k \in 1..Len(SiteVariants) |->
                           LET seq == SiteOrders[k]
                           IN [variant |-> SiteVariants[k], seq |-> seq, nout |-> Len(seq), err |-> FALSE]]])
+    [] fam = "spell" ->
+         LET sv == VStr(SpellStr(li)) IN
+         CASE ri[1] = "bin" ->
+                LET p == SpellPartners[ri[4]]  l == IF ri[3] = 1 THEN sv ELSE p  r == IF ri[3] = 1 THEN p ELSE sv IN
+                Emit([fam |-> fam, ctx |-> "bin", op |-> ri[2], side |-> ri[3], l |-> l, r |-> r, res |-> BinOp(ri[2], l, r),
+                      evalr |-> EvalsRight(ri[2], l), num |-> NumOf(sv), devs |-> <<>>])
+           [] ri[1] = "un" ->
+                Emit([fam |-> fam, ctx |-> "un", op |-> ri[2], l |-> sv, res |-> UnOp(ri[2], sv), num |-> NumOf(sv)])
+           [] ri[1] = "inc" ->
+                LET x == IncDec(ri[2], ri[3] = 1, sv) IN
+                Emit([fam |-> fam, ctx |-> "inc", op |-> ri[2], l |-> sv, prefix |-> (ri[3] = 1), res |-> Ok(x.value), stored |-> x.stored, num |-> NumOf(sv)])
 
 \* ======================================================================
 \* Laws (spec-level; checked by TLC in every enumerated state)
@@ -205,15 +246,24 @@ Plain(v) == v.k \notin {"unset", "arr", "obj"}
 \* --- an independent, kind-by-kind description of "num(v) = 0" and "|num(v)| < 1"
 NumericStringValues ==
   {<<Chars("0"), Zero>>, <<Chars("5"), I(5)>>, <<Chars("-3"), I(-3)>>, <<Chars("2.5"), Num(5, 2, 0)>>,
-   <<Chars("1e2"), I(100)>>, <<Chars("10"), I(10)>>, <<Chars("9"), I(9)>>}
+   <<Chars("1e2"), I(100)>>, <<Chars("10"), I(10)>>, <<Chars("9"), I(9)>>,
+   <<Chars("inf"), PosInf>>, <<Chars("-Infinity"), NegInf>>, <<Chars("NaN"), NaN>>}
 NumericStrings == {p[1] : p \in NumericStringValues}
+\* the non-finite spellings, by their lower-case form
+NanOperand(v) == v.k = "str" /\ Lower(v.s) = Chars("nan")
+InfOperand(v) == v.k = "str" /\ Lower(v.s) \in {Chars("inf"), Chars("+inf"), Chars("-inf"), Chars("infinity"), Chars("+infinity"), Chars("-infinity")}
 ZeroLike(v) ==
   CASE v.k = "num" -> v.n = 0
     [] v.k = "bool" -> ~v.b
-    [] v.k = "str" -> v.s \notin (NumericStrings \ {Chars("0")})
+    [] v.k = "str" -> v.s \notin (NumericStrings \ {Chars("0")}) /\ ~NanOperand(v) /\ ~InfOperand(v)
     [] OTHER -> TRUE
 \* the universe's fractions are dyadic: n * 2^e with e < 0
 TruncZeroLike(v) == ZeroLike(v) \/ (v.k = "num" /\ v.d = 1 /\ v.e < 0 /\ Abs(v.n) < Pow(2, IF -v.e > 20 THEN 20 ELSE -v.e))
+\* --- an independent, kind-by-kind description of the cells whose VALUE the statement leaves open
+NumericCmp(l, r) == {l.k, r.k} \cap {"null", "unset", "arr", "obj"} = {} /\ ~(l.k = "str" /\ r.k = "str")       \* row 7 of 3.4
+ValueOpen(o, l, r) ==
+  \/ o \in CmpOps /\ NumericCmp(l, r) /\ (NanOperand(l) \/ NanOperand(r))
+  \/ o = "%" /\ ~TruncZeroLike(r) /\ (NanOperand(l) \/ InfOperand(l) \/ NanOperand(r))
 ErrExpected(o, l, r) ==
   \/ o = "/" /\ ZeroLike(r)
   \/ o = "%" /\ TruncZeroLike(r)
@@ -223,34 +273,62 @@ ErrExpected(o, l, r) ==
 \* errors exactly on the marked cells; results have the kind the tables promise
 CellLawOn(o, l, r, res) ==
   /\ res.ok = ~ErrExpected(o, l, r)
-  /\ res.ok /\ res.v.k # "unfixed" =>
+  /\ res.ok /\ res.v.k \notin {"unfixed", "okopen"} =>
        /\ o \in (CmpOps \cup LogicOps \cup MatchOps) => res.v.k = "bool"
-       /\ o \in {"-", "*", "/", "%"} => res.v.k \in {"num", "sum"}
+       /\ o \in {"-", "*", "/", "%"} => res.v.k \in {"num", "sum", "inf", "nan"}
+       /\ o \in {"-", "*", "/", "%"} /\ res.v.k \in {"inf", "nan"} => (\E v \in {l, r} : NanOperand(v) \/ InfOperand(v))   \* (no overflow in the model)
        /\ o = "+" => (res.v.k = "str") = ("str" \in {l.k, r.k})
        /\ o = "+" /\ res.v.k = "str" => Len(res.v.s) = Len(StrOf(l)) + Len(StrOf(r))
   /\ (res.ok /\ res.v.k = "unfixed") = ~CmpFixed(o, l, r)
+  /\ (res.ok /\ res.v.k = "okopen") = (CmpFixed(o, l, r) /\ ~ErrExpected(o, l, r) /\ ValueOpen(o, l, r))
   /\ res.ok => res.v.k # "undefined"
 
 CellLaw(o, l, r) == CellLawOn(o, l, r, BinOp(o, l, r))
 
 \* the numbers that occur as num() of an operand, in increasing order (hand-written)
-NumOrder == <<Num(-7, 2, 0), I(-3), I(-1), Zero, Num(1, 1, -20), Num(1, 2, 0), I(1), I(2), Num(5, 2, 0), I(3),
-              I(5), I(7), I(9), I(10), I(100), Num(1, 1, 53), Num(1, 1, 70)>>
+NumOrder == <<NegInf, Num(-7, 2, 0), I(-3), I(-1), Zero, Num(1, 1, -20), Num(1, 2, 0), I(1), I(2), Num(5, 2, 0), I(3),
+              I(5), I(7), I(9), I(10), I(100), Num(1, 1, 53), Num(1, 1, 70), PosInf>>
 RankOf(x) == CHOOSE i \in 1..Len(NumOrder) : NumEq(NumOrder[i], x)
 NumOrderLaw ==
   /\ \A i, j \in 1..Len(NumOrder) : NumCmp(NumOrder[i], NumOrder[j]) = (IF i < j THEN -1 ELSE IF i > j THEN 1 ELSE 0)
   /\ NumCmp(Zero, NegZero) = 0 /\ NumCmp(NegZero, Zero) = 0
 
 SubLaw(d, e) == d.k = "num" => NumEq(d, Neg(e))                       \* l - r = -(r - l)
-DivLaw(l, r, q) == q.ok => NumEq(Mul(q.v, NumOf(r)), NumOf(l))          \* (l / r) * r = l, exactly
+DivLaw(l, r, q) == q.ok /\ IsFin(NumOf(l)) /\ IsFin(NumOf(r)) => NumEq(Mul(q.v, NumOf(r)), NumOf(l))          \* (l / r) * r = l, exactly
 RemLaw(a, b, m) == Abs(m) < Abs(b) /\ (m = 0 \/ (m < 0) = (a < 0)) /\ (a - m) % Abs(b) = 0
-ModLaw(tl, tr, res) == res.ok /\ res.v.k = "num" /\ Small(tl) /\ Small(tr) => RemLaw(IntOf(tl), IntOf(tr), IntOf(res.v))
+ModLaw(tl, tr, res) == res.ok /\ res.v.k = "num" /\ IsFin(tl) /\ IsFin(tr) /\ Small(tl) /\ Small(tr) => RemLaw(IntOf(tl), IntOf(tr), IntOf(res.v))
 MatchLaw(m1, m2) == m1.ok = m2.ok /\ (m1.ok => B(m1) = ~B(m2))
 
 \* 3.4 / 3.5 and arithmetic identities on one ordered pair
+\* the arithmetic of an infinite operand x = num(l) with a finite one y = num(r) (IEEE), operator by operator
+InfLaws(l, r, x, y) ==
+  x.k = "inf" /\ y.k = "num" =>
+    /\ Arith("-", l, r) = Ok(x) /\ Arith("-", r, l) = Ok(Neg(x))
+    /\ "str" \notin {l.k, r.k} => Arith("+", l, r) = Ok(x) /\ Arith("+", r, l) = Ok(x)
+    /\ Arith("*", l, r) = Ok(IF y.n = 0 THEN NaN ELSE Inf(x.neg # IsNeg(y)))
+    /\ Arith("/", l, r) = (IF y.n = 0 THEN Err ELSE Ok(Inf(x.neg # IsNeg(y))))
+    /\ Arith("/", r, l).ok /\ IsZero(Arith("/", r, l).v) /\ IsNeg(Arith("/", r, l).v) = (x.neg # IsNeg(y))     \* never "divide by zero"
+    /\ Arith("%", r, l).ok /\ NumEq(Arith("%", r, l).v, Trunc(y))                                               \* never "divide by zero"
+    /\ Arith("%", l, r) = (IF IsZero(Trunc(y)) THEN Err ELSE OkOpen)
+    /\ NumericCmp(l, r) =>
+         /\ Compare("<", l, r) = Ok(VBool(x.neg)) /\ Compare(">", l, r) = Ok(VBool(~x.neg))
+         /\ Compare("<", r, l) = Ok(VBool(~x.neg)) /\ Compare(">", r, l) = Ok(VBool(x.neg))
+         /\ Compare("==", l, r) = Ok(VBool(FALSE)) /\ Compare("!=", r, l) = Ok(VBool(TRUE))
+\* NaN: contagious in + - * /, no runtime error anywhere except a zero divisor on the right, comparisons are open
+NanLaws(l, r, x, y) ==
+  x.k = "nan" =>
+    /\ \A o \in {"-", "*"} : Arith(o, l, r) = Ok(NaN) /\ Arith(o, r, l) = Ok(NaN)
+    /\ "str" \notin {l.k, r.k} => Arith("+", l, r) = Ok(NaN) /\ Arith("+", r, l) = Ok(NaN)
+    /\ Arith("/", r, l) = Ok(NaN) /\ Arith("%", r, l) = OkOpen
+    /\ Arith("/", l, r) = (IF IsZero(y) THEN Err ELSE Ok(NaN))
+    /\ NumericCmp(l, r) => \A o \in CmpOps : Compare(o, l, r) = OkOpen /\ Compare(o, r, l) = OkOpen
+Ordered(l, r) == ~(NumericCmp(l, r) /\ (NanOperand(l) \/ NanOperand(r)))
 PairLawsOn(l, r, lt, gt, eq, ne, le, ge) ==
-  \* comparison laws for operands that are neither unset nor containers
-  /\ Plain(l) /\ Plain(r) =>
+  \* the comparison of the finite fragment is the comparison, away from the non-finite spellings
+  /\ "unset" \notin {l.k, r.k} /\ (\A v \in {l, r} : ~NanOperand(v) /\ ~InfOperand(v)) => Cmp(l, r) = CmpX(l, r)
+  /\ InfLaws(l, r, NumOf(l), NumOf(r)) /\ NanLaws(l, r, NumOf(l), NumOf(r))
+  \* comparison laws for operands that are neither unset nor containers (and, where numbers are compared, not NaN)
+  /\ Plain(l) /\ Plain(r) /\ Ordered(l, r) =>
        /\ \A x \in {lt, gt, eq, ne, le, ge} : IsBool(x)
        /\ B(lt) = B(Compare(">", r, l))
        /\ B(eq) = ~B(ne)
@@ -266,7 +344,7 @@ PairLawsOn(l, r, lt, gt, eq, ne, le, ge) ==
   \* unset: < and > are true, == is false, whatever the other side is
   /\ "unset" \in {l.k, r.k} => lt = Ok(VBool(TRUE)) /\ gt = Ok(VBool(TRUE)) /\ eq = Ok(VBool(FALSE))
   \* strings against strings is bytewise, everything else goes through num()
-  /\ Plain(l) /\ Plain(r) /\ "null" \notin {l.k, r.k} =>
+  /\ Plain(l) /\ Plain(r) /\ "null" \notin {l.k, r.k} /\ Ordered(l, r) =>
        B(lt) = (IF l.k = "str" /\ r.k = "str" THEN StrCmp(l.s, r.s) < 0 ELSE RankOf(NumOf(l)) < RankOf(NumOf(r)))
   \* logic: booleans, De Morgan, short circuit
   /\ Logic("&&", l, r) = Ok(VBool(Truthy(l) /\ Truthy(r)))
@@ -288,13 +366,15 @@ PairLaws(l, r) ==
   PairLawsOn(l, r, Compare("<", l, r), Compare(">", l, r), Compare("==", l, r), Compare("!=", l, r), Compare("<=", l, r), Compare(">=", l, r))
 
 \* laws of one value
+NumSame(x, y) == NumEq(x, y) \/ (x.k = "nan" /\ y.k = "nan")
 ValueLaws(v) ==
   /\ B(UnOp("!", UnOp("!", v).v)) = Truthy(v)
   /\ Neg(UnOp("-", v).v) = NumOf(v)
   /\ UnOp("+", v).v = NumOf(v)
-  /\ NumEq(UnOp("-", v).v, Sub(Zero, NumOf(v)))
-  /\ NumEq(Arith("+", v, Zero).v, NumOf(v)) \/ v.k = "str"
-  /\ NumEq(Arith("*", v, I(1)).v, NumOf(v))
+  /\ NumSame(UnOp("-", v).v, Sub(Zero, NumOf(v)))
+  /\ NumSame(Arith("+", v, Zero).v, NumOf(v)) \/ v.k = "str"
+  /\ NumSame(Arith("*", v, I(1)).v, NumOf(v))
+  /\ Truthy(NumOf(v)) = ~IsZero(NumOf(v))
   /\ Cardinality({nm \in TypeNames : B(IsOp(v, nm))}) = 1
   /\ \A i \in 1..Len(IsNames) : IsNames[i] \notin TypeNames => IsOp(v, IsNames[i]) = Ok(VBool(FALSE))
   /\ \A i \in 1..Len(IsNames) : IsOp(VNative, IsNames[i]) = (IF i <= 9 THEN Unfixed ELSE Ok(VBool(FALSE)))
@@ -320,16 +400,17 @@ UniverseOK == \A i \in 1..NW : W[i].k = "num" => Abs(W[i].n) < 64 /\ W[i].d < 64
 \* ---- composed expressions
 Opposite(o) == CASE o = "==" -> "!=" [] o = "!=" -> "==" [] o = "<" -> ">=" [] o = ">=" -> "<" [] o = ">" -> "<=" [] o = "<=" -> ">"
                  [] o = "~" -> "!~" [] o = "!~" -> "~"
-Fixed(x) == x.ok /\ x.v.k # "unfixed"
+Fixed(x) == x.ok /\ x.v.k \notin {"unfixed", "okopen"}
 Res(x) == IF x.ok THEN Ok(x.v) ELSE Err
 \* unary(binary(l, r))
 NestUB(u, b, l, r, x) ==                                       \* x the result of the tree, inner the cell below the unary operator
   LET inner == BinOp(b, l, r) IN
   /\ x.ok = inner.ok                                                              \* a unary operator neither raises nor hides an error
   /\ x.m = (IF EvalsRight(b, l) THEN <<1, 2>> ELSE <<1>>)
-  /\ Fixed(x) => x.v.k = (IF u = "!" THEN "bool" ELSE "num")
+  /\ Fixed(x) => (IF u = "!" THEN x.v.k = "bool" ELSE x.v.k \in {"num", "inf", "nan"})
   \* a negated comparison is the opposite comparison for operands that are set ...
-  /\ u = "!" /\ b \in CmpOps /\ inner.ok /\ "unset" \notin {l.k, r.k} => Res(x) = BinOp(Opposite(b), l, r)
+  /\ u = "!" /\ b \in CmpOps /\ inner.ok /\ "unset" \notin {l.k, r.k} /\ inner.v.k # "okopen" => Res(x) = BinOp(Opposite(b), l, r)
+  /\ inner.ok /\ inner.v.k = "okopen" => Res(x) = Unfixed
   \* ... and NOT when one is unset: == is false and so is != ; < and > are true
   /\ u = "!" /\ b \in {"==", "<", ">"} /\ "unset" \in {l.k, r.k} => Res(x) = Ok(VBool(b = "=="))
   /\ u = "!" /\ b \in MatchOps /\ inner.ok => Res(x) = BinOp(Opposite(b), l, r)
@@ -383,6 +464,26 @@ SiteLawsOf(o, side, fixed, variant, cells) ==
 SiteLawsAll(o, side, fixed, cells) == \A k \in 1..Len(SiteVariants) : SiteLawsOf(o, side, fixed, SiteVariants[k], cells)
 SiteLaws(o, side, fixed) == SiteLawsAll(o, side, fixed, SiteCells(o, side, fixed))
 
+\* ---- the non-finite spellings: what a spelling denotes (against the description by lower-case form); a string
+\* that is not a spelling is 0 like any non-numeric string; the cell laws in every context; no context raises an
+\* error because of the spelling (only a zero divisor does)
+SpellLaws(sv, ctx) ==
+  /\ NumOf(sv) = SpellValue(sv.s)
+  /\ ParseNum(sv.s).ok = FALSE
+  /\ Truthy(sv) /\ UnOp("!", sv) = Ok(VBool(FALSE))
+  /\ ctx[1] = "bin" =>
+       LET p == SpellPartners[ctx[4]]  l == IF ctx[3] = 1 THEN sv ELSE p  r == IF ctx[3] = 1 THEN p ELSE sv  res == BinOp(ctx[2], l, r) IN
+       /\ CellLawOn(ctx[2], l, r, res)
+       /\ res.ok = ~(ctx[2] \in {"/", "%"} /\ IsZero(Trunc(NumOf(r))))
+       /\ InfLaws(l, r, NumOf(l), NumOf(r)) /\ NanLaws(l, r, NumOf(l), NumOf(r))
+       \* a spelling that denotes nothing behaves like "abc"
+       /\ SpellValue(sv.s) = Zero /\ ~(l.k = "str" /\ r.k = "str") /\ ctx[2] # "+" =>
+             res = BinOp(ctx[2], IF ctx[3] = 1 THEN S("abc") ELSE p, IF ctx[3] = 1 THEN p ELSE S("abc"))
+  /\ ctx[1] = "un" => UnOp(ctx[2], sv) = (CASE ctx[2] = "!" -> Ok(VBool(FALSE)) [] ctx[2] = "+" -> Ok(SpellValue(sv.s)) [] ctx[2] = "-" -> Ok(Neg(SpellValue(sv.s))))
+  /\ ctx[1] = "inc" => LET x == IncDec(ctx[2], ctx[3] = 1, sv) IN
+       /\ SpellValue(sv.s).k # "num" => x.value = SpellValue(sv.s) /\ x.stored = SpellValue(sv.s)                  \* inf + 1 = inf, NaN + 1 = NaN
+       /\ SpellValue(sv.s).k = "num" => x.stored = I(IF ctx[2] = "++" THEN 1 ELSE -1)
+
 Laws == done =>
   /\ fam = "nest" => NestLaws
   /\ fam = "site" => SiteLaws(op, ri, U[li])
@@ -390,6 +491,7 @@ Laws == done =>
   /\ fam = "bin" /\ op = "==" => PairLaws(U[li], U[ri])
   /\ fam = "match" /\ op = "~" => PairLaws(W[li], W[ri])
   /\ fam = "match" /\ op = "~" /\ li = 1 => ValueLaws(W[ri])            \* every value of W once
+  /\ fam = "spell" => SpellLaws(VStr(SpellStr(li)), ri)
 
 \* bytewise order on strings is a total order (checked once, on all triples)
 StrOrderLaw ==
